@@ -43,8 +43,28 @@ from pyvc.values import (NONE, V, VBool, VExt, VFunc, VInt, VNoneT, VRef, VSeq, 
 from pyvc.verify import Maker, p_ext, p_opt
 
 OMML = "sharepoint2text/parsing/extractors/util/omml_to_latex.py"
-PE = f"{OMML}::omml_to_latex.<locals>.process_element"
-PENDING = "pending_sqrt_close"          # closure variable: part of the nested function's interface
+
+
+def _discover():
+    """the nested recursive worker of omml_to_latex and the enclosing-scope variable it rebinds, found by what they
+    are (the nested def with a `nonlocal` declaration / its single declared name), not by how they are called"""
+    name, var = "process_element", "pending_sqrt_close"
+    try:
+        m = loader.module(OMML)
+        outer = m.functions.get("omml_to_latex")
+        nested = [n for n in ast.walk(outer) if isinstance(n, ast.FunctionDef) and n is not outer] if outer is not None else []
+        withnl = [(n, [x for st_ in ast.walk(n) if isinstance(st_, ast.Nonlocal) for x in st_.names]) for n in nested]
+        withnl = [(n, v) for n, v in withnl if v]
+        if len(withnl) == 1 and len(set(withnl[0][1])) == 1:
+            name, var = withnl[0][0].name, withnl[0][1][0]
+    except Exception:  # noqa  (missing file etc.: the contract target will be reported missing)
+        pass
+    return name, var
+
+
+PE_NAME, PENDING = _discover()          # PENDING: the closure variable holding the closer a malformed radical waits for
+PE = f"{OMML}::omml_to_latex.<locals>.{PE_NAME}"
+PE_OID = "omml_to_latex.<locals>.process_element"      # stable obligation ids whatever the nested function is called
 
 S = z3.StringSort()
 I = z3.IntSort()
@@ -408,6 +428,46 @@ def m_index(ex, st, args, kwargs, node):
     return [(st, VInt(idx))]
 
 
+def m_partition(ex, st, args, kwargs, node):
+    """s.partition(sep) -> (before, sep, after) at the lowest occurrence, (s, "", "") when there is none"""
+    s_, p = args[0], (args[1] if len(args) > 1 else None)
+    if len(args) != 2 or kwargs:
+        raise Unsupported(f"{ex.loc(node)} str.partition form not modelled")
+    if isinstance(p, VOptStr):
+        st = ex.fork_raise(st, p.none, "TypeError")
+        if st is None:
+            return []
+        pt = p.t
+    elif isinstance(p, VStr):
+        pt = p.t
+    else:
+        raise Unsupported(f"{ex.loc(node)} str.partition of {p!r}")
+    st = ex.fork_raise(st, z3.Length(pt) == 0, "ValueError")          # empty separator
+    if st is None:
+        return []
+    out = []
+    s, ln = s_.t, z3.Length(s_.t)
+    if ex.feasible(st.pc, z3.Not(z3.Contains(s, pt))):
+        a = st.fork().assume(z3.Not(z3.Contains(s, pt)))
+        out.append((a, VTuple([s_, VStr(""), VStr("")])))
+    if ex.feasible(st.pc, z3.Contains(s, pt)):
+        st.assume(z3.Contains(s, pt))
+        idx = z3.IndexOf(s, pt, 0)
+        end = idx + z3.Length(pt)
+        before, after = ex.sub(s, z3.IntVal(0), idx), ex.sub(s, end, ln)
+        st.assume(z3.And(idx >= 0, end <= ln))
+        st.assume(z3.SubString(s, idx, z3.Length(pt)) == pt)
+        st.assume(s == z3.Concat(before, pt, after))
+        for h in HN:                  # split axiom at the two cut points
+            f = HOMS[h][0]
+            st.assume(f(before) + hom(h, pt) + f(after) == hom(h, s))
+        for t in (before, after):
+            for f in str_facts(t):
+                st.assume(f)
+        out.append((st, VTuple([VStr(before), VStr(pt), VStr(after)])))
+    return out
+
+
 def zero_sums():
     return {"n": z3.IntVal(0), "LB": z3.IntVal(0), "RB": z3.IntVal(0), "NW": z3.IntVal(0)}
 
@@ -453,6 +513,7 @@ def install(reg):
     reg.ext_models["str.split"] = m_split
     reg.ext_models["str.strip"] = m_strip
     reg.ext_models["str.index"] = m_index
+    reg.ext_models["str.partition"] = m_partition
     reg.ext_models["str.join"] = m_join
 
 
@@ -668,7 +729,11 @@ class C19Executor(Executor):
         for name in sorted(self.assigned_names(nodes)):
             cur = st.lookup(name)
             if cur is not None:
-                self.rebind(st, name, self.havoc_like(st, cur, name))
+                nv = self.havoc_like(st, cur, name)
+                if isinstance(nv, VStr):
+                    for f in str_facts(nv.t):
+                        st.assume(f)
+                self.rebind(st, name, nv)
         for name, mk in sorted(self.closure_writes(st, nodes).items()):
             cond, nv = mk.make(self, st, fresh_name(name))[0]
             self.rebind(st, name, nv)
@@ -686,6 +751,29 @@ class C19Executor(Executor):
             else:
                 st.heap[ref] = HeapObj("unk", None, o.cls, False)
 
+    def string_accumulators(self, st, nodes):
+        """names bound to a str before the loop that the body only ever extends (`x += e`, `x = x + e`): the text they
+        gain is accumulated output exactly like the items appended to a list"""
+        out = []
+        for name in sorted(self.assigned_names(nodes)):
+            if not isinstance(st.lookup(name), VStr):
+                continue
+            ok = True
+            for b in nodes:
+                for n in ast.walk(b):
+                    if isinstance(n, ast.AugAssign) and isinstance(n.target, ast.Name) and n.target.id == name:
+                        ok = ok and isinstance(n.op, ast.Add)
+                    elif isinstance(n, ast.Assign) and any(isinstance(t, ast.Name) and t.id == name for t in n.targets):
+                        v = n.value
+                        ok = ok and isinstance(v, ast.BinOp) and isinstance(v.op, ast.Add) and isinstance(v.left, ast.Name) \
+                            and v.left.id == name
+                    elif isinstance(n, (ast.For, ast.comprehension)) and any(
+                            isinstance(t, ast.Name) and t.id == name for t in ast.walk(n.target)):
+                        ok = False
+            if ok:
+                out.append(name)
+        return out
+
     def havoc_ref(self, st, ref, o, nodes):
         """hook: havoc a heap object of a kind a subclass introduces; True when handled"""
         return False
@@ -697,7 +785,7 @@ class C19Executor(Executor):
         entry = st.fork()
         inv = spec.inv if spec is not None else None
         accs = sorted(r for r in (set(self.mutated_refs(nodes, st)) | set(accs_extra)) if self.is_strlist(st, r))
-        extra = {"accs": accs}
+        extra = {"accs": accs, "svars": self.string_accumulators(st, nodes)}
         if inv is not None:
             self.add_vc("inv-init", label, st.pc, self._b(inv(LoopCtx(self, st, z3.IntVal(0), entry, it, extra))),
                         loc=self.loc(node))
@@ -833,8 +921,7 @@ def conv_loop_inv(lc):
     if p_now is None or p_ent is None:
         return z3.BoolVal(True)
     d_bal, d_D = z3.IntVal(0), z3.IntVal(0)
-    for r in lc.extra.get("accs", ()):
-        now, ent = sums_of(lc.st, r), sums_of(lc.entry, r)
+    for (now, ent) in acc_pairs(lc):
         if now is None or ent is None:
             return z3.BoolVal(False)
         d_bal = d_bal + (bal_of(now) - bal_of(ent))
@@ -843,14 +930,27 @@ def conv_loop_inv(lc):
                   z3.Implies(cond, z3.And(open_(p_now) - open_(p_ent) == d_bal, d_D >= 0, p_not_rbrace(p_now))))
 
 
+def acc_pairs(lc):
+    """(now, at loop entry) count summaries of everything the loop accumulates: lists of str and str variables"""
+    out = [(sums_of(lc.st, r), sums_of(lc.entry, r)) for r in lc.extra.get("accs", ())]
+    for name in lc.extra.get("svars", ()):
+        a, b = lc.st.lookup(name), lc.entry.lookup(name)
+        out.append((H3(a.t) if isinstance(a, VStr) else None, H3(b.t) if isinstance(b, VStr) else None))
+    return out
+
+
 def greek_loop_inv(lc):
-    t = lc.ex.entry_ctx.args["text"].t
-    accs = lc.extra.get("accs", ())
-    if len(accs) != 1:
+    tv = lc.ex.entry_ctx.args["text"]
+    pairs = acc_pairs(lc)
+    if len(pairs) != 1 or pairs[0][0] is None or pairs[0][1] is None or not isinstance(tv, VStr):
         return z3.BoolVal(False)
-    sm = sums_of(lc.st, accs[0])
+    t = tv.t
+    sm = {h: pairs[0][0][h] - pairs[0][1][h] for h in HN}          # what the loop has accumulated so far
+    if not (isinstance(lc.seq, VStr) and lc.seq.t.eq(t)):
+        return z3.BoolVal(False)                                  # only loops over the characters of `text`
     hp = H3(prefix(t, lc.i))
-    return z3.And(bal_of(sm) == bal_of(hp), D_of(sm) >= D_of(hp), sm["LB"] >= 0, sm["RB"] >= 0, sm["NW"] >= 0)
+    now = pairs[0][0]
+    return z3.And(bal_of(sm) == bal_of(hp), D_of(sm) >= D_of(hp), now["LB"] >= 0, now["RB"] >= 0, now["NW"] >= 0)
 
 
 def verifying(c):
@@ -1031,7 +1131,7 @@ def contracts(reg):
             ("balance-preserved", lambda c: bal_of(H3(c.result.t)) == bal_of(H3(tx(c)))),
             ("no-lone-brace", lambda c: D_of(H3(c.result.t)) >= D_of(H3(tx(c)))),
         ],
-        loops={0: LoopSpec(inv=greek_loop_inv)},
+        loops={"*": LoopSpec(inv=greek_loop_inv)},
         note="char-wise map through GREEK_TO_LATEX: total on str, preserves brace balance",
     ))
 
@@ -1104,6 +1204,7 @@ def contracts(reg):
         loops={"*": LoopSpec(inv=conv_loop_inv)},
         note="recursive; verified against its own contract at every recursive call",
     ))
+    out[-1].oid_name = PE_OID
 
     # ----------------------------------------------------------------------- omml_to_latex --
     def om_hyps(c):
@@ -1120,6 +1221,9 @@ def contracts(reg):
     out.append(FnContract(
         target=f"{OMML}::omml_to_latex",
         params=[("omath_element", p_opt(p_ext("Element")))],
+        # callers hand in an Element or None (checked at every call site inside a function under contract)
+        requires=lambda c: z3.BoolVal(isinstance(c.args["omath_element"], VNoneT) or
+                                      (isinstance(c.args["omath_element"], VExt) and c.args["omath_element"].sort == "Element")),
         hyps=om_hyps,
         # a function of the tree (the determinism policy obligations + no mutation of the tree by its callers)
         result_maker=lambda ex, st, c: VStr(OML(c.args["omath_element"].t)) if isinstance(c.args["omath_element"], VExt)
@@ -1180,17 +1284,12 @@ def tables(repo, tier):
     P = lambda oid, ok, why="": obls.append(ground_obligation(
         f"C19/{oid}", ok, why or "shape not recognised", "syntax", definite=False))
     fo = m.functions.get("omml_to_latex")
-    fp = m.functions.get("omml_to_latex.<locals>.process_element")
+    fp = m.functions.get(f"omml_to_latex.<locals>.{PE_NAME}")
     if fo is not None and fp is not None:
-        # module constants: names bound once at module level to a literal (or frozenset/tuple/dict of literals),
-        # module-level functions, and the ElementTree import used in annotations
-        def is_const(v):
-            try:
-                ast.literal_eval(v)
-                return True
-            except (ValueError, SyntaxError, TypeError):
-                return isinstance(v, ast.Call) and isinstance(v.func, ast.Name) and v.func.id in ("frozenset", "tuple") \
-                    and all(is_const(a) for a in v.args) and not v.keywords
+        # module constants: names bound exactly once at module level, never mutated, whose initialiser reads only
+        # literals, other such constants and pure builtins (comprehensions, f-strings, dict()/frozenset() ... included)
+        PURE = {"frozenset", "tuple", "dict", "set", "list", "sorted", "str", "len", "range", "zip", "enumerate", "chr", "ord",
+                "int", "bool", "min", "max", "sum", "reversed", "map", "filter", "repr", "float", "bytes", "any", "all", "abs"}
         stores = {}
         for n in ast.walk(m.tree):
             if isinstance(n, ast.Name) and isinstance(n.ctx, (ast.Store, ast.Del)):
@@ -1199,8 +1298,29 @@ def tables(repo, tier):
                    and isinstance(n.ctx, (ast.Store, ast.Del)) and isinstance(n.value, ast.Name)}
         mutated |= {n.func.value.id for n in ast.walk(m.tree) if isinstance(n, ast.Call) and isinstance(n.func, ast.Attribute)
                     and isinstance(n.func.value, ast.Name) and n.func.attr in
-                    ("append", "extend", "add", "update", "pop", "clear", "remove", "setdefault", "insert", "discard", "popitem")}
-        allowed_globals = {k for k, v in m.assigns.items() if is_const(v) and stores.get(k, 0) == 1 and k not in mutated}
+                    ("append", "extend", "add", "update", "pop", "clear", "remove", "setdefault", "insert", "discard", "popitem",
+                     "sort", "reverse")}
+        mutated |= {x for n in ast.walk(m.tree) if isinstance(n, ast.Global) for x in n.names}
+
+        def pure(v, consts):
+            bound = {t.id for n in ast.walk(v) if isinstance(n, ast.comprehension) for t in ast.walk(n.target) if isinstance(t, ast.Name)}
+            for n in ast.walk(v):
+                if isinstance(n, (ast.Lambda, ast.Await, ast.Yield, ast.YieldFrom, ast.NamedExpr)):
+                    return False
+                if isinstance(n, ast.Name) and isinstance(n.ctx, ast.Load) and n.id not in bound | consts | PURE:
+                    return False
+                if isinstance(n, ast.Call) and not (isinstance(n.func, ast.Name) or isinstance(n.func, ast.Attribute)):
+                    return False
+            return True
+        cands = {k: v for k, v in m.assigns.items() if stores.get(k, 0) == 1 and k not in mutated}
+        allowed_globals = set()
+        changed = True
+        while changed:
+            changed = False
+            for k, v in cands.items():
+                if k not in allowed_globals and pure(v, allowed_globals):
+                    allowed_globals.add(k)
+                    changed = True
         allowed_globals |= {k for k in m.functions if "." not in k} | {"ET"}
         locs = {a.arg for a in fo.args.args} | {n.id for n in ast.walk(fo) if isinstance(n, ast.Name) and isinstance(n.ctx, ast.Store)}
         locs |= {a.arg for a in fp.args.args} | {fp.name}
@@ -1213,10 +1333,16 @@ def tables(repo, tier):
                       - locs - allowed_globals)
         nonl = sorted({x for n in ast.walk(fo) if isinstance(n, (ast.Nonlocal, ast.Global)) for x in n.names})
         P("omml_to_latex.py::omml_to_latex/policy#reads-only-argument-closure-state-and-module-constants",
-          not free and nonl == [PENDING], f"free={free} nonlocal/global={nonl}")
+          not free and nonl == [PENDING] and not any(isinstance(n, ast.Global) for n in ast.walk(fo)),
+          f"free={free} nonlocal/global={nonl}")
         iters = [n.iter for n in ast.walk(fo) if isinstance(n, (ast.For, ast.comprehension))]
-        bad = [ast.unparse(i) for i in iters if not (isinstance(i, ast.Name) or (isinstance(i, ast.Call) and isinstance(i.func, ast.Attribute)
-                                                                                and i.func.attr in ("findall", "iter", "items")))]
+        unordered_consts = {k for k, v in m.assigns.items() if isinstance(v, (ast.Set, ast.SetComp)) or
+                            (isinstance(v, ast.Call) and isinstance(v.func, ast.Name) and v.func.id in ("set", "frozenset"))}
+
+        def unordered(i):
+            return isinstance(i, (ast.Set, ast.SetComp)) or (isinstance(i, ast.Name) and i.id in unordered_consts) or \
+                (isinstance(i, ast.Call) and isinstance(i.func, ast.Name) and i.func.id in ("set", "frozenset"))
+        bad = [ast.unparse(i) for i in iters if unordered(i)]
         P("omml_to_latex.py::omml_to_latex/policy#iterates-only-ordered-sequences", not bad, repr(bad))
         banned = [ast.unparse(n.func) for n in ast.walk(fo) if isinstance(n, ast.Call) and dotted(n.func).split(".")[0] in
                   ("random", "time", "os", "id", "hash", "set", "frozenset", "open", "input")]
@@ -1334,6 +1460,20 @@ BOUNDED = ["order of the formula lists built at the docx / pptx call sites (disp
            "run texts emitted exactly once and in source order: checked natively by replay/C19.py on all schema-shaped "
            "trees up to depth 2 / width 2 (small scope), not proved",
            "determinism beyond the syntactic policy obligations: double-run comparison in replay/C19.py (small scope)"]
+
+LOCK_OPTIONAL_KINDS = ("inv-init", "inv-preserve", "decreases", "call-pre")   # exist only while the code has the construct
+
+
+def post_report(c, rep):
+    """Every VC of this pack speaks about abstractions (uninterpreted counts, summarised lists, havocked loop states,
+    contracts standing for calls): a solver model of one is a *candidate*, not a counterexample.  It becomes `unknown`;
+    the native replayer (small-scope search on the real code) then either produces a failing input (VIOLATION) or
+    leaves it UNDECIDED.  Ground table obligations (EXTRA) are definite and are not touched."""
+    for o in rep.obligations:
+        if o.get("status") == "refuted":
+            o["status"] = "unknown"
+            o["reason"] = ("candidate counter-model over the pack's abstractions; " + (o.get("reason") or ""))[:300]
+
 
 REPLAY_UNKNOWN = True    # undecided / out-of-subset items are searched natively (replay) before being reported UNDECIDED
 
